@@ -54,7 +54,10 @@ def examples(tier):
 
 @st.composite
 def strategy_(draw, tier, tool=None):
-    leaf = st.just({"t": "f", "c": ""})
+    # files, and now and then a symbolic link (to a name that may or may not be ignored itself, or to nothing):
+    # a link is judged by its own name, like every other entry
+    leaf = st.sampled_from([{"t": "f", "c": ""}] * 6 + [{"t": "l", "to": "keep.log"}, {"t": "l", "to": "../notes.md"}, {"t": "l", "to": "nowhere"},
+                                                        {"t": "l", "to": "../build"}])
     names = st.one_of(st.sampled_from(VOCAB_F), st.sampled_from(VOCAB_F), st.sampled_from(VOCAB_D))
     dnames = st.sampled_from(VOCAB_D)
     spec = trees.grow(draw, [4, 7, 10, 14, 18], st.one_of(names, dnames), leaf, dir_ratio=(2, 5), max_depth=4)
